@@ -83,6 +83,15 @@ def build_pool(rng):
 
 def rand_call(rng, pool):
     r = rng.random()
+    if r < 0.06:
+        # the key helpers on the very values the verifiers are about to meet: a key id that authorizes signatures, read as a public key, as a private key
+        # (any 32 bytes are a seed), as bytes — calls on related inputs that must leave later verdicts alone
+        env, auth, gpg = rng.choice(pool["envs"])
+        keys_ = [k for k in list(auth) + list(env["signatures"]) if isinstance(k, str) and len(k) == 64 and all(c in "0123456789abcdef" for c in k)]
+        if keys_:
+            hx = rng.choice(keys_)
+            fn_ = rng.choice(["priv_from_hex", "pub_from_hex", "priv_from_bytes", "pub_from_bytes"])
+            return ("key", [fn_, hx if fn_.endswith("hex") else bytes.fromhex(hx)])
     if r < 0.35:
         env, auth, gpg = rng.choice(pool["envs"])
         return ("vsignable", [env, auth, rng.choice([1, 1, 2, 3]), gpg])
@@ -107,6 +116,32 @@ def rand_call(rng, pool):
     return ("is", [name, rng.choice(vals)])
 
 
+def process_settings() -> dict:
+    """interpreter- and process-wide settings a library call has no business leaving changed (each can change what a *later* call does: recursion allowance,
+    integer / text conversions, where relative names point, what printing does ...)"""
+    import decimal, locale, signal, warnings
+    out = {"recursion-limit": sys.getrecursionlimit(), "int-max-str-digits": sys.get_int_max_str_digits(), "cwd": os.getcwd(), "locale": locale.setlocale(locale.LC_ALL),
+           "stdout": id(sys.stdout), "stderr": id(sys.stderr), "excepthook": id(sys.excepthook), "threading-excepthook": id(threading.excepthook),
+           "decimal-precision": decimal.getcontext().prec, "warnings-filters": len(warnings.filters), "sys.path": tuple(sys.path), "environ": tuple(sorted(os.environ.items())),
+           "sigint": repr(signal.getsignal(signal.SIGINT)), "sigterm": repr(signal.getsignal(signal.SIGTERM)), "sigpipe": repr(signal.getsignal(signal.SIGPIPE)),
+           "trace": id(sys.gettrace()), "profile": id(sys.getprofile()), "thread-stack-size": threading.stack_size(), "default-timeout": __import__("socket").getdefaulttimeout()}
+    um = os.umask(0)
+    os.umask(um)
+    out["umask"] = um
+    return out
+
+
+def settings_unchanged(ck, before: dict, where: str) -> bool:
+    now = process_settings()
+    diff = {k: [str(before[k])[:80], str(now[k])[:80]] for k in before if before[k] != now[k]}
+    ck.oracle_checks += 1
+    if diff:
+        ck.violation("library calls left a process-wide interpreter setting changed (state carried across calls: a later call can behave differently because of it)",
+                     {"after": where, "changed": diff}, "process-setting-left-changed:" + ",".join(sorted(diff)))
+        return False
+    return True
+
+
 def direct(impl, op, args, enc="utf-8"):
     """call the library on the very objects given (no copies)"""
     with impl.quiet_stdout(enc):
@@ -117,6 +152,7 @@ def run(ck: Check) -> None:
     from .. import impl
 
     rng = ck.rng
+    settings0 = process_settings()
     ck.correspondences.add("corr:api-histories/verdict-per-call")
     nh = ck.n(12, 4)
     all_lines, all_impl, all_calls, all_call_args = [], [], [], []
@@ -221,6 +257,7 @@ def run(ck: Check) -> None:
                           "expected": ["OK", "E SignatureError", "OK", "E SignatureError", "OK"]}, f"in-place-edit:{['vsignable', 'vdeleg', 'vroot'][kind]}:{edit}")
             break
 
+    settings_unchanged(ck, settings0, "call histories and in-place edits")
     # wrap-then-mutate, both directions
     for _ in range(ck.n(80, 25)):
         obj = gen.rand_json(rng, 4, [25])
@@ -305,6 +342,7 @@ def run(ck: Check) -> None:
             ck.violation("arguments were modified during concurrent verification", {"call": op}, f"threads-mutated:{op}")
             break
 
+    settings_unchanged(ck, settings0, "concurrent calls in threads")
     # systematic interference (deterministic, unlike the scheduler above): while call X runs, another complete call Y is executed between *every two
     # lines* X executes inside the library (what a thread switch at that point would amount to).  X's verdict and Y's verdicts must be the sequential ones.
     repo_pkg = os.path.join(os.path.realpath(os.environ.get("CCT_REPO", "/repo")), "conda_content_trust") + os.sep
@@ -321,6 +359,57 @@ def run(ck: Check) -> None:
     s_e = gen.sign_env(gen.envelope({"a": [1, 2]}), kk_, False)
     s_e["signatures"][gen.key(5).hex] = gen.raw_entry(gen.key(5), b"other")
     directed = [("vdeleg", ["key_mgr", d_u, d_t, False]), ("vroot", [r_t, r_u]), ("vsignable", [s_e, [k.hex for k in kk_], 2, False])]
+    # overlaps that do not nest (sched.staggered): call A is stopped after k1 of its steps, call B started and stopped after k2 of its own, A runs to its
+    # end, then B — for sampled (k1, k2).  Each call's verdict is the verdict it has alone.  Among the calls: payloads nested far deeper than the
+    # recursion allowance left to a call made from deep inside an application's stack (whatever verdict such a call has alone — the serializer gives up on the
+    # unchanged tree — it has in every schedule)
+    from .. import sched
+    def deep_env(depth):
+        v = 1
+        for _ in range(depth):
+            v = [v]
+        return {"signatures": {}, "signed": {"deep": v}}
+    def from_deep_stack(f, n=900):
+        # the call is made from far down an application's call stack: little of the interpreter's recursion allowance is left to it
+        return f() if n == 0 else from_deep_stack(f, n - 1)
+    deep_calls = [("vsignable", [deep_env(dp), [kk_[0].hex], 1, False]) for dp in (100, 200)]
+    stag_pairs = [(deep_calls[0], deep_calls[1]), (directed[2], deep_calls[1]), (directed[0], directed[0]), (directed[1], directed[1]),
+                  (directed[2], directed[0]), (deep_calls[1], directed[2])] + [(x, y) for x in okc[:2] for y in badc[:1]]
+    nsched = 0
+    with impl.quiet_stdout():
+        for (xop, xargs), (yop, yargs) in stag_pairs[: (len(stag_pairs) if ck.thorough else 6)]:
+            fa = (lambda: from_deep_stack(lambda: impl._run(xop, xargs))) if (xop, xargs) in deep_calls else (lambda: impl._run(xop, xargs))
+            fb = (lambda: from_deep_stack(lambda: impl._run(yop, yargs))) if (yop, yargs) in deep_calls else (lambda: impl._run(yop, yargs))
+            want_a, na = sched.count_events(fa, repo_pkg)
+            want_b, nb = sched.count_events(fb, repo_pkg)
+            pts_a = sorted({max(1, int(na * f)) for f in ((0.05, 0.2, 0.4, 0.6, 0.8, 0.95, 1.0) if not ck.thorough else [i / 20 for i in range(1, 21)])})
+            pts_b = sorted({max(1, int(nb * f)) for f in ((0.1, 0.5, 0.9) if not ck.thorough else [i / 10 for i in range(1, 11)])})
+            if (yop, yargs) in deep_calls:
+                # every pair of stopping points (thinned evenly when there are more than 1500)
+                stride = 1 + (na * nb) // (1500 if ck.thorough else 500)
+                pts_a, pts_b = list(range(1, na + 1)), list(range(1, nb + 1, stride))
+            bad = None
+            for k1 in pts_a:
+                for k2 in pts_b:
+                    got_a, got_b, ra, rb = sched.staggered(fa, fb, k1, k2, repo_pkg)
+                    nsched += 1
+                    ck.evaluations += 1
+                    if got_a != want_a or got_b != want_b:
+                        bad = (k1, k2, got_a, got_b)
+                        break
+                if bad:
+                    break
+            ck.oracle_checks += 1
+            if bad:
+                ck.violation("a verdict changed when two calls overlapped in threads without nesting (A begins, B begins, A ends, B ends): state shared between calls",
+                             {"call_a": xop, "call_b": yop, "a_alone": str(want_a)[:80], "b_alone": str(want_b)[:80], "a_stopped_after_steps": bad[0], "b_stopped_after_steps": bad[1],
+                              "a_overlapped": str(bad[2])[:120], "b_overlapped": str(bad[3])[:120],
+                              "payload_nesting": "deep, called from a deep stack" if ((xop, xargs) in deep_calls or (yop, yargs) in deep_calls) else "ordinary"}, f"staggered:{xop}:{yop}")
+                break
+    ck.count("staggered-schedules", nsched)
+    settings_unchanged(ck, settings0, "overlapping calls in threads")
+    del deep_calls, stag_pairs
+
     pairs = [(x, x) for x in directed] + [(x, x) for x in okc[:2]]
     for x in (okc[:3] + badc[:3]):
         for y in (badc[:2] + okc[:2]):
@@ -379,6 +468,7 @@ def run(ck: Check) -> None:
                           "request": impl.enc_case(xop, xargs)[:800]}, f"interleaved:{xop}")
             break
     ck.count("interference-points", injected)
+    settings_unchanged(ck, settings0, "interleaved calls")
 
     # arguments outside the JSON universe (instances of subclasses of dict / list / str / int, tuples, proxies): the outcome of every call, at every point of
     # a history that mixes them (wrapping first, verifying later, and the other way round), equals its outcome as the first call of a fresh process
